@@ -49,14 +49,18 @@ FamNest ==
             p3 |-> Permit(Or(<<CSS("a"), And(<<Or(<<CSS("b")>>), CSS("c")>>)>>)),  \* a || (b && c)
             p4 |-> Permit(And(<<Or(<<CSS("p3")>>), Not(CSS("p1"))>>)),            \* permits.p3 && !permits.p1
             p5 |-> Permit(Or(<<Not(Or(<<Or(<<CSS("a")>>), And(<<Or(<<CSS("b")>>), CSS("c")>>)>>))>>)),
-            p6 |-> Permit(Or(<<Not(Not(CSS("c")))>>))],  \* !(a || (b && c)): an intersection below a union below a negation
+            p6 |-> Permit(Or(<<Not(Not(CSS("c")))>>)),
+            \* a union of a permission and a plain relation, in both operand orders (|| is commutative)
+            p7 |-> Permit(Or(<<CSS("p3"), CSS("c")>>)),
+            p8 |-> Permit(Or(<<CSS("c"), CSS("p3")>>))],  \* !(a || (b && c)): an intersection below a union below a negation
             \* (p6 below: a negation directly below a negation)
      R |-> [v |-> Rel(<<<<"U","">>, <<"D","p1">>, <<"D","p2">>>>, None)]],
    U |-> << Tup("D","d","a", Id("u")), Tup("D","d","b", SS("G","g","m")), Tup("D","d","c", SS("G","h","m")),
             Tup("G","g","m", Id("u")), Tup("G","g","m", SS("G","h","m")), Tup("G","h","m", Id("u")),
             Tup("D","d","a", SS("G","h","m")), Tup("R","r","v", SS("D","d","p1")), Tup("R","r","v", SS("D","d","p2")) >>,
    Q |-> << Tup("D","d","p1", Id("u")), Tup("D","d","p2", Id("u")), Tup("D","d","p3", Id("u")),
-            Tup("D","d","p4", Id("u")), Tup("R","r","v", Id("u")), Tup("D","d","p3", Id("w")), Tup("D","d","p5", Id("u")), Tup("D","d","p6", Id("u")) >>]
+            Tup("D","d","p4", Id("u")), Tup("R","r","v", Id("u")), Tup("D","d","p3", Id("w")), Tup("D","d","p5", Id("u")), Tup("D","d","p6", Id("u")),
+            Tup("D","d","p7", Id("u")), Tup("D","d","p8", Id("u")) >>]
 
 FamPlain ==
   [cfg |-> [n |-> [x \in {} |-> Rel(<<>>, None)]],
